@@ -627,7 +627,17 @@ fn cstr(s: &str) -> String {
     cnums(s.as_bytes())
 }
 fn cmembers(ps: &[Presented]) -> String {
-    clist(&ps.iter().map(|p| format!("mm {} {} {}", cstr(&p.name), cbool(p.is_symlink), cnums(&p.data))).collect::<Vec<_>>())
+    clist(
+        &ps.iter()
+            .map(|p| {
+                if p.data.len() > 64 && p.data.iter().all(|b| *b == p.data[0]) {
+                    format!("mmr {} {} {} {}", cstr(&p.name), cbool(p.is_symlink), p.data[0], p.data.len())
+                } else {
+                    format!("mm {} {} {}", cstr(&p.name), cbool(p.is_symlink), cnums(&p.data))
+                }
+            })
+            .collect::<Vec<_>>(),
+    )
 }
 fn o_tree(t: &Tree) -> O {
     O::T(t
@@ -643,30 +653,55 @@ fn o_tree(t: &Tree) -> O {
         .collect())
 }
 
+/// Everything happens below a fresh `outer` directory:
+///   outer/{sentinel, decoy/old.txt, arch/}                       arch/: where archive files are put
+///   outer/l1/l2/l3/{sentinel, decoy/old.txt, t/}                 t/: the target dir of extract_to_dir
+/// and TMPDIR points to outer/l1/l2/l3 while extract_archives runs, so that its temp dir is a sibling of t/.
+/// Hostile names with up to three `..` (and absolute names, which are rewritten to point into `outer`)
+/// therefore stay inside `outer`, where a write is seen by `untouched`.
 struct Sandbox {
     _outer: tempfile::TempDir,
     outer: PathBuf,
+    l3: PathBuf,
     t: PathBuf,
-    before: Tree, // the outer directory without t/
+    before: Tree, // the outer directory without the target dir
 }
 const SENTINEL: &[u8] = b"do not touch";
+static ORIG_TMPDIR: std::sync::LazyLock<Option<std::ffi::OsString>> = std::sync::LazyLock::new(|| std::env::var_os("TMPDIR"));
 fn sandbox() -> Sandbox {
     let outer_td = tempfile::tempdir().expect("tempdir");
     let outer = outer_td.path().canonicalize().unwrap();
-    std::fs::write(outer.join("sentinel"), SENTINEL).unwrap();
-    std::fs::create_dir(outer.join("decoy")).unwrap();
-    std::fs::write(outer.join("decoy").join("old.txt"), SENTINEL).unwrap();
-    let t = outer.join("t");
+    let l3 = outer.join("l1").join("l2").join("l3");
+    std::fs::create_dir_all(&l3).unwrap();
+    for d in [&outer, &l3] {
+        std::fs::write(d.join("sentinel"), SENTINEL).unwrap();
+        std::fs::create_dir(d.join("decoy")).unwrap();
+        std::fs::write(d.join("decoy").join("old.txt"), SENTINEL).unwrap();
+    }
+    std::fs::create_dir(outer.join("arch")).unwrap();
+    let t = l3.join("t");
     std::fs::create_dir(&t).unwrap();
-    let mut before = tree_of(&outer);
-    before.retain(|k, _| k[0] != "t");
-    Sandbox { _outer: outer_td, outer, t, before }
+    let mut sb = Sandbox { _outer: outer_td, outer, l3, t, before: Tree::new() };
+    sb.before = sb.snapshot(None);
+    sb
 }
 impl Sandbox {
-    fn untouched(&self, skip: &[&str]) -> bool {
+    /// the tree below outer without arch/, t_before/ and the target dir (t/ or the given temp dir)
+    fn snapshot(&self, tdir: Option<&Path>) -> Tree {
         let mut now = tree_of(&self.outer);
-        now.retain(|k, _| k[0] != "t" && !skip.contains(&k[0].as_str()));
-        now == self.before
+        let tname = tdir.and_then(|p| p.file_name()).map(|s| s.to_string_lossy().to_string());
+        now.retain(|k, _| {
+            let in_l3 = k.len() >= 4 && k[0] == "l1" && k[1] == "l2" && k[2] == "l3";
+            !(k[0] == "arch" || k[0] == "t_before" || (in_l3 && (k[3] == "t" || Some(&k[3]) == tname.as_ref())))
+        });
+        now
+    }
+    fn untouched(&self, tdir: Option<&Path>) -> bool {
+        self.snapshot(tdir) == self.before
+    }
+    /// absolute hostile names are written as "/ABS/..." and point into the sandbox
+    fn absolutize(&self, name: &str) -> String {
+        name.replace("/ABS", &self.outer.to_string_lossy())
     }
 }
 
@@ -737,7 +772,15 @@ fn extract_oracle(
         }
     }
     match &run.result {
-        Err(_) => Verdict::Ok, // an I/O error (a name that denotes a directory, file/directory clash) is reported to the caller
+        // an I/O error is reported to the caller; it is legitimate only if some selected name denotes a
+        // directory or clashes (file vs. directory) with another selected member or with what is there
+        Err(e) => {
+            if conflict_possible(ps, pre, &remaining, rn) {
+                Verdict::Ok
+            } else {
+                fail("extract_unexpected_error", e.clone())
+            }
+        }
         Ok(rep) => {
             if *rep != expected {
                 return fail("extract_exact_set", format!("reported {:?}, expected {:?}", rep, expected));
@@ -755,6 +798,57 @@ fn extract_oracle(
             Verdict::Ok
         }
     }
+}
+
+fn conflict_possible(ps: &[Presented], pre: &Tree, remaining: &Option<Vec<String>>, rn: &HashMap<String, String>) -> bool {
+    use std::collections::BTreeSet;
+    let mut files: BTreeSet<Vec<String>> = BTreeSet::new();
+    let mut dirs: BTreeSet<Vec<String>> = BTreeSet::new();
+    for (k, n) in pre {
+        match n {
+            Node::File(_) => files.insert(k.clone()),
+            _ => dirs.insert(k.clone()),
+        };
+    }
+    for p in ps {
+        if norm(&p.name).is_none() || !remaining.as_ref().map_or(true, |k| k.contains(&p.name)) {
+            continue;
+        }
+        if p.is_symlink && !p.is_dir {
+            continue;
+        }
+        let name = if p.is_dir { p.name.clone() } else { rn.get(&p.name).cloned().unwrap_or_else(|| p.name.clone()) };
+        let mut loc: Vec<String> = vec![];
+        let mut visited: Vec<Vec<String>> = vec![];
+        for c in Path::new(&name).components() {
+            match c {
+                Component::Normal(s) => {
+                    loc.push(s.to_string_lossy().to_string());
+                    visited.push(loc.clone());
+                }
+                Component::ParentDir => {
+                    loc.pop();
+                }
+                _ => {}
+            }
+        }
+        if p.is_dir {
+            dirs.extend(visited);
+        } else {
+            let last = name.rsplit('/').next().unwrap_or("");
+            if last.is_empty() || last == "." || last == ".." || loc.is_empty() {
+                return true; // the name denotes a directory
+            }
+            // every location passed through is a directory, the final one a file
+            for v in visited {
+                if v != loc {
+                    dirs.insert(v);
+                }
+            }
+            files.insert(loc);
+        }
+    }
+    files.iter().any(|f| dirs.contains(f))
 }
 
 fn split_volumes(rng: &mut Rng, bytes: &[u8]) -> Vec<Vec<u8>> {
@@ -828,7 +922,11 @@ fn name_tags(ps: &[Presented], tags: &mut Vec<String>) -> bool {
 }
 
 #[allow(clippy::too_many_arguments)]
-fn record_extract(sink: &mut Sink, ms: &[MSpec], dup: &[(String, String)], pre: &[(String, Option<Vec<u8>>)], filter: Option<Vec<String>>, rn: Vec<(String, String)>, vols_seed: u64, extra_tag: &str) {
+fn record_extract(sink: &mut Sink, ms_in: &[MSpec], dup: &[(String, String)], pre: &[(String, Option<Vec<u8>>)], filter_in: Option<Vec<String>>, rn: Vec<(String, String)>, vols_seed: u64, extra_tag: &str) {
+    let sb = sandbox();
+    let ms: Vec<MSpec> = ms_in.iter().map(|m| MSpec { name: sb.absolutize(&m.name), ..m.clone() }).collect();
+    let ms = &ms[..];
+    let filter: Option<Vec<String>> = filter_in.as_ref().map(|f| f.iter().map(|n| sb.absolutize(n)).collect());
     let bytes = match write_zip(ms, dup) {
         Some(b) => b,
         None => return,
@@ -837,7 +935,6 @@ fn record_extract(sink: &mut Sink, ms: &[MSpec], dup: &[(String, String)], pre: 
         Some(p) => p,
         None => return,
     };
-    let sb = sandbox();
     // what the target dir holds before
     for (p, c) in pre {
         let full = sb.t.join(p);
@@ -854,7 +951,7 @@ fn record_extract(sink: &mut Sink, ms: &[MSpec], dup: &[(String, String)], pre: 
     let t_copy = sb.outer.join("t_before");
     copy_tree(&sb.t, &t_copy);
     let mut vrng = Rng::new(vols_seed);
-    let vols = split_volumes(&mut vrng, &bytes);
+    let vols = if vols_seed == 0 { vec![bytes.clone()] } else { split_volumes(&mut vrng, &bytes) };
     let nvols = vols.len();
     let rn_map: HashMap<String, String> = rn.iter().cloned().collect();
     let cancel = Arc::new(AtomicBool::new(false));
@@ -870,7 +967,7 @@ fn record_extract(sink: &mut Sink, ms: &[MSpec], dup: &[(String, String)], pre: 
         Ok(Ok(v)) => Ok(v.iter().map(|p| p.to_string_lossy().to_string()).collect::<Vec<_>>()),
     };
     let panicked = matches!(&result, Err(e) if e.starts_with("panic: "));
-    let run = ExtractRun { result, tree: tree_of(&sb.t), untouched: sb.untouched(&["t_before"]) };
+    let run = ExtractRun { result, tree: tree_of(&sb.t), untouched: sb.untouched(None) };
     let mut verdict = extract_oracle(&ps, &pre_tree, &filter, &rn_map, &run, Some(&t_copy));
     if panicked {
         verdict = Verdict::Fail { clause: "extract_no_panic".into(), detail: run.result.clone().unwrap_err() };
@@ -922,8 +1019,8 @@ fn record_extract(sink: &mut Sink, ms: &[MSpec], dup: &[(String, String)], pre: 
         key: input_coq.clone(),
         input_coq,
         input_json: json!({"part": "extract",
-            "members": ms.iter().map(|m| json!({"name": m.name, "kind": m.kind, "data": m.data, "deflate": m.deflate})).collect::<Vec<_>>(),
-            "dup": dup, "pre": pre, "filter": filter, "rename": rn, "vols_seed": vols_seed}),
+            "members": ms_in.iter().map(|m| json!({"name": m.name, "kind": m.kind, "data": m.data, "deflate": m.deflate})).collect::<Vec<_>>(),
+            "dup": dup, "pre": pre, "filter": filter_in, "rename": rn, "vols_seed": vols_seed}),
         obs: o_run(&run),
         verdict,
         classes: vec![],
@@ -932,7 +1029,12 @@ fn record_extract(sink: &mut Sink, ms: &[MSpec], dup: &[(String, String)], pre: 
     });
 }
 
-fn record_archives(sink: &mut Sink, ms: &[MSpec], dup: &[(String, String)], stem: &str, pattern: &str, bang: bool, multi_vol: u64, extra_tag: &str) {
+fn record_archives(sink: &mut Sink, ms_in: &[MSpec], dup: &[(String, String)], stem: &str, pattern_in: &str, bang: bool, multi_vol: u64, extra_tag: &str) {
+    let sb = sandbox();
+    let ms: Vec<MSpec> = ms_in.iter().map(|m| MSpec { name: sb.absolutize(&m.name), ..m.clone() }).collect();
+    let ms = &ms[..];
+    let pattern_owned = sb.absolutize(pattern_in);
+    let pattern = pattern_owned.as_str();
     let bytes = match write_zip(ms, dup) {
         Some(b) => b,
         None => return,
@@ -945,10 +1047,8 @@ fn record_archives(sink: &mut Sink, ms: &[MSpec], dup: &[(String, String)], stem
         Ok(p) => p,
         Err(_) => return,
     };
-    let sb = sandbox();
-    // the archive lives in its own directory next to the sandbox's t/
+    // the archive lives in outer/arch; the temp dirs of extract_archives are made in outer/l1/l2/l3
     let adir = sb.outer.join("arch");
-    std::fs::create_dir(&adir).unwrap();
     let first = if multi_vol >= 2 {
         let n = multi_vol as usize;
         let per = bytes.len() / n + 1;
@@ -974,11 +1074,16 @@ fn record_archives(sink: &mut Sink, ms: &[MSpec], dup: &[(String, String)], stem
     let log = slog::Logger::root(slog::Discard, slog::o!());
     let cancel = Arc::new(AtomicBool::new(false));
     let fname = file_name.clone();
+    std::env::set_var("TMPDIR", &sb.l3);
     let r = catch_loc(move || {
         let mut tds = vec![];
         let v = extract_archives(fname, &mut tds, &cancel, &log);
         (v, tds)
     });
+    match &*ORIG_TMPDIR {
+        Some(v) => std::env::set_var("TMPDIR", v),
+        None => std::env::remove_var("TMPDIR"),
+    }
     // the archive stem as extract_archives computes it (file_stem of the archive path)
     let astem = first.file_stem().unwrap().to_string_lossy().to_string();
     let entries: Vec<(String, bool)> = ps.iter().map(|p| (p.name.clone(), pat.matches(&p.name))).collect();
@@ -988,7 +1093,7 @@ fn record_archives(sink: &mut Sink, ms: &[MSpec], dup: &[(String, String)], stem
         Err(p) => (O::T(vec![O::L(3)]), fail("extract_no_panic", p), false, 0),
         Ok((v, tds)) => {
             if tds.is_empty() {
-                let untouched = sb.untouched(&["arch"]);
+                let untouched = sb.untouched(None);
                 if v.is_empty() {
                     // nothing matched
                     let any = if entries.len() == 1 && entries[0].0 == "data" {
@@ -1022,7 +1127,7 @@ fn record_archives(sink: &mut Sink, ms: &[MSpec], dup: &[(String, String)], stem
                         None => outside = Some(s.clone()),
                     }
                 }
-                let untouched = sb.untouched(&["arch"]);
+                let untouched = sb.untouched(Some(&tdir));
                 let run = ExtractRun { result: Ok(rel), tree: tree_of(&tdir), untouched };
                 // selection by the oracle
                 let (filter, rn): (Vec<String>, HashMap<String, String>) = if entries.len() == 1 && entries[0].0 == "data" {
@@ -1067,8 +1172,8 @@ fn record_archives(sink: &mut Sink, ms: &[MSpec], dup: &[(String, String)], stem
         key: input_coq.clone(),
         input_coq,
         input_json: json!({"part": "archives",
-            "members": ms.iter().map(|m| json!({"name": m.name, "kind": m.kind, "data": m.data, "deflate": m.deflate})).collect::<Vec<_>>(),
-            "dup": dup, "stem": stem, "pattern": pattern, "bang": bang, "multi_vol": multi_vol}),
+            "members": ms_in.iter().map(|m| json!({"name": m.name, "kind": m.kind, "data": m.data, "deflate": m.deflate})).collect::<Vec<_>>(),
+            "dup": dup, "stem": stem, "pattern": pattern_in, "bang": bang, "multi_vol": multi_vol}),
         obs,
         verdict,
         classes: vec![],
@@ -1079,7 +1184,7 @@ fn record_archives(sink: &mut Sink, ms: &[MSpec], dup: &[(String, String)], stem
 
 const NICE: &[&str] = &["a.dlt", "b.dlt", "dir/c.dlt", "dir/sub/d.dlt", "dir/e.txt", "x.bin", "dir2/f.dlt", "dir/", "dir/sub/", "empty/", "g h.dlt", "ü/ö.dlt"];
 const HOSTILE: &[&str] = &[
-    "../evil.dlt", "../../evil.dlt", "/abs.dlt", "//abs2.dlt", "dir/../../evil.dlt", "dir/../h.dlt", "./i.dlt", "dir//j.dlt", "dir/./k.dlt",
+    "../evil.dlt", "../../evil.dlt", "/ABS/abs.dlt", "//ABS/abs2.dlt", "/ABS/decoy/new.txt", "/ABS/sentinel", "dir/../../evil.dlt", "dir/../h.dlt", "./i.dlt", "dir//j.dlt", "dir/./k.dlt",
     "..", ".", "dir/..", "dir/.", "../", "./", "dir/../", "a.dlt/x.dlt", "dir", "..\\evil.dlt", "back\\", "n/o/../p.dlt", "n/o/../../q.dlt",
     "n/o/../../../r.dlt", "../sentinel", "../decoy/new.txt", "..dlt", "...", ".../s.dlt", "dir/sub/../../t.dlt", "x/../a.dlt", "./a.dlt", "dir/../dir/c.dlt",
 ];
@@ -1151,7 +1256,7 @@ fn gen_extract_case(rng: &mut Rng, sink: &mut Sink) {
     record_extract(sink, &ms, &dup, &pre, filter, rn, rng.next(), "");
 }
 
-const PATTERNS: &[&str] = &["**/*", "*", "*.dlt", "**/*.dlt", "dir/*", "dir/**/*.dlt", "a.dlt", "../*", "**/../*", "/*", "dir/c.dlt", "*/*", "[ab].dlt", "data", "x*", "..", "."];
+const PATTERNS: &[&str] = &["**/*", "*", "*.dlt", "**/*.dlt", "dir/*", "dir/**/*.dlt", "a.dlt", "../*", "**/../*", "/**/*", "dir/c.dlt", "*/*", "[ab].dlt", "data", "x*", "..", "."];
 
 fn gen_archives_case(rng: &mut Rng, sink: &mut Sink) {
     let (ms, dup) = if rng.chance(1, 10) {
@@ -1202,6 +1307,23 @@ fn extract_corpus(sink: &mut Sink) {
     record_archives(sink, &[f("a.dlt", b"A"), f("dir/", b""), f("dir/b.dlt", b"B"), f("dir/c.txt", b"C")], &[], "arc", "**/*.dlt", false, 3, "corpus_multi_volume");
 }
 
+/// a skipped member of `s` bytes before the requested ones: the zip crate then asks the shared reader for
+/// offsets that depend on `s` (repaired defect: CloneableSeekableReader lost track of its position)
+fn record_size_sweep(sink: &mut Sink, s: usize, tag: &str) {
+    let f = |n: &str, d: Vec<u8>| MSpec { name: n.into(), kind: 0, data: d, deflate: false };
+    record_extract(
+        sink,
+        &[f("skip.bin", vec![7u8; s]), f("want.txt", b"WANTED".to_vec()), f("w2.txt", b"W2".to_vec())],
+        &[],
+        &[],
+        Some(vec!["want.txt".into(), "w2.txt".into()]),
+        vec![],
+        0, // one volume
+        tag,
+    );
+}
+const SWEEP_WITNESSES: &[usize] = &[1768, 1950, 1954, 1984, 2014, 2174, 2212, 2248];
+
 fn spec_from_json(v: &Value) -> Vec<MSpec> {
     v.as_array()
         .unwrap()
@@ -1209,76 +1331,19 @@ fn spec_from_json(v: &Value) -> Vec<MSpec> {
         .map(|m| MSpec {
             name: m["name"].as_str().unwrap().to_string(),
             kind: m["kind"].as_u64().unwrap() as u8,
-            data: serde_json::from_value(m["data"].clone()).unwrap(),
+            data: match m.get("data_repeat") {
+                Some(r) => vec![r[0].as_u64().unwrap() as u8; r[1].as_u64().unwrap() as usize],
+                None => serde_json::from_value(m["data"].clone()).unwrap(),
+            },
             deflate: m["deflate"].as_bool().unwrap_or(false),
         })
         .collect()
 }
 
 
-// ------------------------------------------------------------------------------------------ probe
-/// a reader that logs what is asked of it (used to look at the access pattern of the zip crate through
-/// CloneableSeekableReader)
-struct Logged {
-    inner: Cursor<Vec<u8>>,
-    log: Arc<std::sync::Mutex<Vec<(u64, usize, usize)>>>, // (position, asked, got)
-}
-impl Read for Logged {
-    fn read(&mut self, buf: &mut [u8]) -> std::io::Result<usize> {
-        let p = self.inner.position();
-        let k = self.inner.read(buf)?;
-        self.log.lock().unwrap().push((p, buf.len(), k));
-        Ok(k)
-    }
-}
-impl Seek for Logged {
-    fn seek(&mut self, pos: SeekFrom) -> std::io::Result<u64> {
-        self.inner.seek(pos)
-    }
-}
-impl HasLength for Logged {
-    fn len(&self) -> u64 {
-        self.inner.get_ref().len() as u64
-    }
-}
-fn probe2() {
-    let f = |n: &str, d: Vec<u8>| MSpec { name: n.into(), kind: 0, data: d, deflate: false };
-    let cancel = Arc::new(AtomicBool::new(false));
-    let mut bad = vec![];
-    for s in 0..6000usize {
-        let bytes = write_zip(&[f("skip.bin", vec![7u8; s]), f("want.txt", b"WANTED".to_vec()), f("w2.txt", b"W2".to_vec())], &[]).unwrap();
-        let t = tempfile::tempdir().unwrap();
-        let r = extract_to_dir(SeekableChain::new(vec![Cursor::new(bytes)]), t.path(), Some(vec!["want.txt".into(), "w2.txt".into()]), &HashMap::new(), &cancel);
-        let c = std::fs::read(t.path().join("want.txt")).ok();
-        let c2 = std::fs::read(t.path().join("w2.txt")).ok();
-        let ok = matches!(&r, Ok(v) if v.len() == 2) && c.as_deref() == Some(&b"WANTED"[..]) && c2.as_deref() == Some(&b"W2"[..]);
-        if !ok {
-            bad.push((s, format!("{:?}", r), c, c2));
-        }
-    }
-    println!("probe2 bad: {:?}", bad);
-}
-fn probe() {
-    probe2();
-    let f = |n: &str, d: Vec<u8>| MSpec { name: n.into(), kind: 0, data: d, deflate: false };
-    let cancel = Arc::new(AtomicBool::new(false));
-    for s in [10usize, 1000, 70000, 200000] {
-        let bytes = write_zip(&[f("skip.bin", vec![7u8; s]), f("want.txt", b"WANTED".to_vec())], &[]).unwrap();
-        let log = Arc::new(std::sync::Mutex::new(vec![]));
-        let t = tempfile::tempdir().unwrap();
-        let r = extract_to_dir(Logged { inner: Cursor::new(bytes.clone()), log: log.clone() }, t.path(), Some(vec!["want.txt".into()]), &HashMap::new(), &cancel);
-        let l = log.lock().unwrap();
-        let total: usize = l.iter().map(|x| x.2).sum();
-        println!("s={} len={} result={:?} reads={} total_read={} first reads {:?}", s, bytes.len(), r, l.len(), total, &l[..l.len().min(12)]);
-    }
-}
-
 fn main() {
-    if std::env::var("C20_PROBE").is_ok() {
-        probe();
-        return;
-    }
     let a = parse_args();
+    let _ = &*ORIG_TMPDIR; // remember TMPDIR before any case changes it
     let mut sink = Sink::new("C20", &a.out);
     sink.shard_size = 60;
     if let Some(p) = &a.replay {
@@ -1309,6 +1374,9 @@ fn main() {
     if !search {
         chain_corpus(&mut sink);
         extract_corpus(&mut sink);
+        for s in SWEEP_WITNESSES {
+            record_size_sweep(&mut sink, *s, "witness_reader_position");
+        }
         // every split of a 2-byte string into up to 3 volumes x every op pair of a small alphabet
         chain_exhaustive(&mut sink, b"xy", if quick { 3 } else { 4 }, if quick { 1 } else { 2 });
         if !quick {
@@ -1329,6 +1397,13 @@ fn main() {
         } else {
             gen_extract_case(&mut rng, &mut sink);
         }
+    }
+    // archives whose first, skipped member has a size in the range where the offsets asked by the zip crate
+    // collide with the number of bytes read so far
+    let n3 = if quick { 40 } else if search { 200 } else { 2500 };
+    for _ in 0..n3 {
+        let s = 1500 + rng.below(1100) as usize;
+        record_size_sweep(&mut sink, s, "size_sweep");
     }
     sink.finish();
 }
